@@ -4,6 +4,7 @@
 //@ fn crypto.rs hmac_sha256
 //@ params key value
 //@ props C08 C06 C01
+//@ consumers C02
 //@ ret r
 //@ spec
     ensures r@ == spec_hmac(key@, value@), //# C06 C01 name=key_then_value
@@ -11,6 +12,7 @@
 //@ fn crypto.rs sha256
 //@ params value
 //@ props C08 C01 C12
+//@ consumers C02
 //@ ret r
 //@ spec
     ensures r@ == spec_sha256(value@), //# C01 C12 name=digest_of_value
@@ -20,6 +22,7 @@
 //@ fn crypto.rs sha256_hex
 //@ params value
 //@ props C08 C01 C12
+//@ consumers C02
 //@ ret r
 //@ spec
     ensures r@ == spec_hex(spec_sha256(value@)), //# C01 C12 name=hex_of_digest
